@@ -440,14 +440,14 @@ class C15(core.Check):
         "extraction: ExtrOcamlBasic only; Z/positive stay Coq datatypes; OCaml 4.13.1; tools/driver/driver.ml",
         "hand-written Model/VTerm.v (validated by the exact whole-state correspondence, not proved against Python)",
         "Base/PyList.v list semantics (insert/pop/index as CPython)",
-        "the AttrSpec abstraction: colour numbers and settings are read back unchanged (validated by correspondence)",
+        "the AttrSpec abstraction of Model/VTerm.v is proved (attrspec_abstraction_sound, reverse_attrspec_sound) against C18's model of the AttrSpec class, Model/Colours.v - whose own tie to display/common.py is C18's business; the sweep against the real class stays as a cross-check",
         "Python oracle and reference VT100 in harness/props/c15.py; Model/VT100Ref.v must agree with it on every case",
     ]
     assumptions = [
         "terminal sizes >= 1x1; util.get_encoding() is one of 'utf8', 'utf-8', 'ascii'",
         "the widget callbacks (respond, set_title, beep, leds) do not raise and do not re-enter the canvas",
         "CSI parameters of more than 4300 digits are not generated (the model treats them like the code: int() fails -> default); vterm_refines_vt100 assumes parameters below 2^4000",
-        "vterm_refines_vt100 stops before the points on which VT100-family terminals differ (LF/RI/HT with the last-column flag set, CUU/CUD across a margin of a partial region, SO before G1 was designated)",
+        "vterm_refines_vt100 stops before the points on which VT100-family terminals differ (LF/RI/HT with the last-column flag set, CUU/CUD across a margin of a partial region while origin mode is off, SO before G1 was designated)",
         "the Terminal widget's pty / process handling and key translation are not covered",
     ]
 
@@ -1261,13 +1261,17 @@ C15.level_text = (
     "region and origin mode equal to the independent reference VT100, its replies are exactly the reference's (DSR 5 / cursor position), "
     "and the scrollback holds exactly the lines that left the top of the reference's screen, in order (parser lemma on "
     "the decimal encoding + one simulation lemma per command + induction).  Corollaries: any_csi_is_survived, "
-    "cut_anywhere (UTF-8 / escape state independent of chunk boundaries), scrolled_view_cursor_inside.  ORACLE / "
-    "CORRESPONDENCE ONLY: the AttrSpec abstraction "
-    "of the model (swept against the real AttrSpec: complete for depths 1/16/256 in the thorough tier); the tie of the "
+    "cut_anywhere (UTF-8 / escape state independent of chunk boundaries), scrolled_view_cursor_inside.  "
+    "attrspec_abstraction_sound / attrspec_none_is_default / reverse_attrspec_sound: the record the model keeps in place of an "
+    "AttrSpec is what vterm.py reads back from the object sgi_to_attrspec / reverse_attrspec build - proved against C18's "
+    "model of the AttrSpec class (constructor accepts the _defaulter descriptions at the declared depth; .foreground_number, "
+    ".background_number, .colors, the four attributes and the \"default\" test read back as the record), every admitted "
+    "colour number, all 2^24 direct colours included (the sweep against the real AttrSpec stays as a cross-check).  ORACLE / "
+    "CORRESPONDENCE ONLY: the tie of the "
     "hand model to vterm.py (exact whole-state correspondence on ~9k cases per quick run).")
 C15.level_note = (
     "Trusted: Coq kernel, py2v (csi_table / constrain_coords / DEC map regenerated each run), extraction + driver, the "
-    "hand model VTerm.v and the AttrSpec abstraction (both validated by correspondence only), PyList semantics, the Python "
+    "hand model VTerm.v (validated by correspondence only; its AttrSpec abstraction is proved against C18's model of the class), PyList semantics, the Python "
     "oracle and reference VT100.  Assumes sizes >= 1x1, encodings utf8 / utf-8 / ascii, well-behaved widget callbacks.  "
     "Not covered: the Terminal widget's pty/process handling and key translation.")
 
